@@ -49,6 +49,7 @@ var binInfo = map[string]struct {
 // Printer options
 type Printer struct {
 	FullParens bool // parenthesise every non-atomic operand (metamorphic variant; must not change behaviour)
+	Public     bool // print Kombinationen (and their fields) and functions as public declarations of a module
 }
 
 func FloatSrc(f float64) (string, bool) {
@@ -371,13 +372,17 @@ func (p *Printer) stmt(sb *strings.Builder, s Stmt, d int) {
 }
 
 func (p *Printer) structDecl(sb *strings.Builder, s *Struct) {
-	sb.WriteString("Wir nennen die Kombination aus\n")
+	pub, pubf := "", ""
+	if p.Public {
+		pub, pubf = "öffentliche ", "öffentlichen "
+	}
+	sb.WriteString("Wir nennen die " + pub + "Kombination aus\n")
 	for _, f := range s.Fields {
 		art := "dem"
 		if f.T.Fem() {
 			art = "der"
 		}
-		fmt.Fprintf(sb, "\t%s %s %s,\n", art, f.T.Src(), f.Name) // the parser wants the undeclined "dem Buchstabe x" here
+		fmt.Fprintf(sb, "\t%s %s%s %s,\n", art, pubf, f.T.Src(), f.Name) // the parser wants the undeclined "dem Buchstabe x" here
 	}
 	fmt.Fprintf(sb, "einen %s, und erstellen sie so:\n\t\"ein %s", s.Name, s.Name)
 	for i, f := range s.Fields {
@@ -392,7 +397,11 @@ func (p *Printer) structDecl(sb *strings.Builder, s *Struct) {
 }
 
 func (p *Printer) funcDecl(sb *strings.Builder, f *Func) {
-	fmt.Fprintf(sb, "Die Funktion %s ", f.Name)
+	if p.Public {
+		fmt.Fprintf(sb, "Die öffentliche Funktion %s ", f.Name)
+	} else {
+		fmt.Fprintf(sb, "Die Funktion %s ", f.Name)
+	}
 	switch len(f.Params) {
 	case 0:
 	case 1:
@@ -438,4 +447,25 @@ func (p *Printer) Program(pr *Program) string {
 	}
 	p.stmts(&sb, pr.Main, 0)
 	return sb.String()
+}
+
+// ProgramSplit prints the program as two modules: lib.ddp (Kombinationen and functions, public) and main.ddp (imports lib).
+func (p *Printer) ProgramSplit(pr *Program) (lib, main string) {
+	var lb, mb strings.Builder
+	lp := *p
+	lp.Public = true
+	lb.WriteString("Binde \"Duden/Ausgabe\" ein.\n\n")
+	for _, s := range pr.Structs {
+		lp.structDecl(&lb, s)
+	}
+	for _, f := range pr.Funcs {
+		lp.funcDecl(&lb, f)
+	}
+	mb.WriteString("Binde \"Duden/Ausgabe\" ein.\nBinde \"lib\" ein.\n\n")
+	if len(pr.Prelude) > 0 {
+		p.stmts(&mb, pr.Prelude, 0)
+		mb.WriteString("\n")
+	}
+	p.stmts(&mb, pr.Main, 0)
+	return lb.String(), mb.String()
 }
